@@ -1,0 +1,1 @@
+//! Stateful (dynamic table) QPACK encoder and decoder.
